@@ -63,7 +63,11 @@ pub fn run(prop: &str, tier: Tier, seed: u64, replay: Option<&str>) -> i32
         // C01, C06, C07, C08, C13 and C18 speak about reactors in general, and world reactors are reactors: one case in eight
         // goes to the world-reactor engine, judged by the part of its oracle the property shares
         let side = crate::wr16::WrEngine{ prop: p };
-        let both = Composite{ main: &engine, side: &side, every: 8 };
+        let side2 = crate::sys17::SysEngine{ prop: p };
+        // C18 ("running or messaging a system" that is gone) also takes one case in eight from the syscall engine: spawned
+        // systems despawned before or during a call; only a panic counts there
+        let sides: Vec<&dyn Engine> = if *p == "C18" { vec![&side, &side2] } else { vec![&side] };
+        let both = Composite{ main: &engine, sides, every: 8 };
         let with_side = ["C01", "C06", "C07", "C08", "C13", "C18"].contains(p);
         if with_side
         {
@@ -99,7 +103,7 @@ pub fn run(prop: &str, tier: Tier, seed: u64, replay: Option<&str>) -> i32
     }
     if prop == "C17"
     {
-        let engine = crate::sys17::SysEngine;
+        let engine = crate::sys17::SysEngine{ prop: "C17" };
         let spec = CheckSpec{
             fuzz_target: Some("sys17"),
             prop: "C17",
